@@ -36,6 +36,11 @@ PROPS = {
     'C17': dict(engine='util', modes=['rseq', 'wseq'], witness=True),
     'C18': dict(engine='util', modes=['sip'], witness=True),
     'C20': dict(engine='util', modes=['endian'], witness=True),
+    # engine 'single': one harness binary run as 16 run-time shards; failing inputs are the
+    # harness's direct property checks (X lines), a bare disagreement is a broken correspondence
+    'C12': dict(engine='single', name='life', source='life_main.cpp', runs=[['--mode', 'life', '--which', 'variant']], witness=False),
+    'C13': dict(engine='single', name='life', source='life_main.cpp',
+                runs=[['--mode', 'life', '--which', 'optional'], ['--mode', 'cmp']], witness=False, witness_ops=['cmp']),
 }
 
 
@@ -146,6 +151,8 @@ class Run:
             self.codec_stage()
         elif eng == 'util':
             self.util_stage()
+        elif eng == 'single':
+            self.single_stage()
         else:
             getattr(__import__('engines'), eng)(self)
 
@@ -170,6 +177,28 @@ class Run:
         self.cov['distinct_nontrivial'] = self.cov.get('distinct_nontrivial', 0) + len(distinct)
         self.cov['rule'] = ('each evaluation is one call sequence / input executed on the real library and on the Lean model and '
                             'compared; distinct = distinct operation lines (every sequence contains at least one primitive call)')
+
+    def single_stage(self):
+        binary = nv.build_single(self.cfg['name'], self.cfg['source'], flags=self.cfg.get('flags'))
+        evaluations = 0
+        distinct = set()
+        for run in self.cfg['runs']:
+            args = list(run) + ['--seed', str(self.seed)]
+            if self.tier == 'thorough':
+                args.append('--thorough')
+            streams = nv.run_sharded(binary, args, self.cfg.get('shards', nv.NSHARD))
+            self.absorb(streams, self.cfg['name'] + '/' + run[1])
+            for s in streams:
+                evaluations += len(s.pairs)
+                for (mi, r) in s.pairs:
+                    distinct.add(hash(s.m[mi]))
+                for (mi, r) in s.pairs[-2:]:
+                    if len(self.samples) < 6:
+                        self.samples.append({'op': s.m[mi][:300], 'impl': r[:300]})
+        self.cov['evaluations'] = self.cov.get('evaluations', 0) + evaluations
+        self.cov['distinct_nontrivial'] = self.cov.get('distinct_nontrivial', 0) + len(distinct)
+        self.cov['rule'] = ('each evaluation is one operation history / input executed on the real library and on the Lean model and '
+                            'compared (per-operation observations, final state of every object, event log); distinct = distinct history lines')
 
     def codec_stage(self):
         bins = nv.build_codec('a')
@@ -206,7 +235,7 @@ class Run:
         for s in streams:
             for x in s.x:
                 tag, rest = x.split(' ', 1)
-                if tag == self.pid:
+                if self.pid in tag.split('/'):
                     self.violations.append(dict(what=label + ': ' + rest.split(' ', 1)[0], input={'observation': rest[:4000]}))
                 else:
                     self.cov['other_property_observations'] = self.cov.get('other_property_observations', 0) + 1
@@ -220,7 +249,7 @@ class Run:
         self.cov['traces_validated_against_impl'] = self.cov.get('traces_validated_against_impl', 0) + agree
         self.cov['disagreements'] = self.cov.get('disagreements', 0) + len(dis)
         for d in dis[:200]:
-            if self.cfg.get('witness') and d['kind'] == 'result':
+            if d['kind'] == 'result' and (self.cfg.get('witness') or d['op'].split(' ', 1)[0] in self.cfg.get('witness_ops', [])):
                 self.violations.append(dict(what=label + ': implementation differs from the reference model', input=d))
             else:
                 self.violations.append(dict(what=label + ': correspondence broken (model and implementation disagree)', input=None, detail=d))
